@@ -49,21 +49,16 @@ try:
     missing = [w for w in base["stable_pass"] if w.replace("::", ".") not in passed]
     meta["steps"]["suite_missing"] = missing[:5]
     meta["steps"]["suite_ok"] = not missing
-    keep = os.path.join(tmp, "keep"); os.makedirs(keep)
-    for d in ("evidence", "replays"):
-        if os.path.exists(os.path.join(V, d)):
-            shutil.copytree(os.path.join(V, d), os.path.join(keep, d))
+    # the checks run from a scratch copy of the harness, so that evidence/ and replays/ of /verif are never touched
+    vv = os.path.join(tmp, "verif")
+    shutil.copytree(V, vv, ignore=shutil.ignore_patterns(".git", "seeded", "evidence", "replays", "__pycache__", "mutants"))
     res = {}
     for c in checks:
-        r = subprocess.run(["/venv/bin/python", "-W", "ignore", os.path.join(V, "harness", "check.py"), c, "--tier", tier],
-                           cwd=V, env=dict(env, VERIF_REPO=dst), capture_output=True, text=True)
+        r = subprocess.run(["/venv/bin/python", "-W", "ignore", os.path.join(vv, "harness", "check.py"), c, "--tier", tier],
+                           cwd=vv, env=dict(env, VERIF_REPO=dst, PYTHONHASHSEED="0"), capture_output=True, text=True)
         keys = [l for l in r.stdout.splitlines() if l.startswith("violation keys")]
         res[c] = {"rc": r.returncode, "verdict": {0: "MISSED", 1: "CAUGHT", 2: "INCONCLUSIVE"}.get(r.returncode, "ERROR"),
                   "keys": keys[0][:600] if keys else ""}
-    for d in ("evidence", "replays"):
-        shutil.rmtree(os.path.join(V, d), ignore_errors=True)
-        if os.path.exists(os.path.join(keep, d)):
-            shutil.copytree(os.path.join(keep, d), os.path.join(V, d))
     meta["checks"] = res
     valid = rc0 == 0 and rc1 != 0 and meta["steps"]["patch_applies"] and meta["steps"]["suite_ok"]
     meta["valid_seed"] = valid
